@@ -289,9 +289,20 @@ impl World {
 	/// Reads new entries of node `n`'s signer log and advances the revocation automata.
 	pub fn scan_signer_log(&mut self, n: usize) {
 		let log: Vec<SignerCall> = {
+			// a node whose disk froze inside this action is dead from the freeze point on:
+			// signer calls made after it never happened (crash.rs truncates the log)
+			let limit = {
+				let d = self.nodes[n].disk.lock().unwrap();
+				if d.frozen {
+					d.frozen_info.as_ref().map(|i| i.signer_log_len)
+				} else {
+					None
+				}
+			};
 			let l = self.nodes[n].keys.log.lock().unwrap();
-			let cur = self.nodes[n].signer_cursor.min(l.len());
-			l[cur..].to_vec()
+			let end = limit.unwrap_or(l.len()).min(l.len());
+			let cur = self.nodes[n].signer_cursor.min(end);
+			l[cur..end].to_vec()
 		};
 		self.nodes[n].signer_cursor += log.len();
 		for call in log {
@@ -626,9 +637,16 @@ impl World {
 		if let (Some(fee), Some(amount)) = (fee, amount) {
 			let first_hops: u64 = p.paths.iter().map(|x| x.hop_amts[0]).sum();
 			if amount != p.total_msat || amount + fee != first_hops {
+				let ctx = if p.rehydrated && p.paths.len() > 1 {
+					" [multi-part payment re-hydrated from ChannelMonitors after a restart from an older ChannelManager]"
+				} else if p.rehydrated {
+					" [payment re-hydrated from ChannelMonitors after a restart from an older ChannelManager]"
+				} else {
+					""
+				};
 				let msg = format!(
-					"node {} pay {}: amount {} + fee {} but {} msat left on the first hops for a payment of {}",
-					n, pay, amount, fee, first_hops, p.total_msat
+					"node {} pay {}: amount {} + fee {} but {} msat left on the first hops for a payment of {}{}",
+					n, pay, amount, fee, first_hops, p.total_msat, ctx
 				);
 				self.violate("C03", "C03-4 PaymentSent amount and fee", msg);
 			}
@@ -638,13 +656,29 @@ impl World {
 	pub fn oracle_on_failed(&mut self, n: usize, pay: usize) {
 		self.out.bump("oracle:C03-5 PaymentFailed consistent");
 		let p = self.pays[pay].clone();
+		let loaded = self.nodes[n].disk.lock().unwrap().loaded_generation;
 		if !p.ev.sent.is_empty() {
-			let msg = format!("node {} pay {}: PaymentFailed after PaymentSent", n, pay);
+			// was the PaymentSent handled only after the snapshot this incarnation started from?
+			let stale = self.nodes[n].incarnation > 0
+				&& p.ev.sent_gen.iter().all(|g| *g + 1 > loaded)
+				&& p.ev.sent.iter().all(|s| s.1 < self.nodes[n].incarnation);
+			let ctx = if stale {
+				" [PaymentSent was handled in an earlier incarnation, after the ChannelManager snapshot this incarnation restarted from]"
+			} else {
+				""
+			};
+			let msg = format!("node {} pay {}: PaymentFailed after PaymentSent{}", n, pay, ctx);
 			self.violate("C03", "C03-5 contradictory terminal events", msg);
 		}
 		let inc = self.nodes[n].incarnation;
 		if p.ev.failed.iter().filter(|s| s.1 == inc).count() > 1 {
-			let msg = format!("node {} pay {}: PaymentFailed twice without a restart", n, pay);
+			let outdated = p.paths.iter().any(|x| self.nodes[n].outdated_chans.contains(&x.chans[0]));
+			let ctx = if outdated {
+				" [its first-hop channel was closed with OutdatedChannelManager in this incarnation: failed once at start-up from the stale manager's view and again when the newer ChannelMonitor resolved the HTLC on chain]"
+			} else {
+				""
+			};
+			let msg = format!("node {} pay {}: PaymentFailed twice without a restart{}", n, pay, ctx);
 			self.violate("C03", "C03-5 terminal event repeated without restart", msg);
 		}
 	}
@@ -708,7 +742,55 @@ impl World {
 		}
 	}
 
-	pub fn on_chain_event(&mut self, _n: usize, _e: Event) {}
+	/// C03-6: a payment the restarted sender no longer lists has no HTLC in flight.
+	pub fn oracle_after_restart(&mut self, n: usize) {
+		let mgr = match self.mgr(n) {
+			Some(m) => m,
+			None => return,
+		};
+		let listed: Vec<lightning::ln::channelmanager::PaymentId> = mgr
+			.list_recent_payments()
+			.iter()
+			.map(|r| match r {
+				RecentPaymentDetails::Pending { payment_id, .. } => *payment_id,
+				RecentPaymentDetails::Fulfilled { payment_id, .. } => *payment_id,
+				RecentPaymentDetails::Abandoned { payment_id, .. } => *payment_id,
+				RecentPaymentDetails::AwaitingInvoice { payment_id } => *payment_id,
+			})
+			.collect();
+		let chans = mgr.list_channels();
+		let step = self.step;
+		let loaded_gen = self.nodes[n].disk.lock().unwrap().loaded_generation;
+		for pi in 0..self.pays.len() {
+			let p = self.pays[pi].clone();
+			if p.from == n && p.first_gen > loaded_gen && listed.contains(&p.id) && !p.rehydrated {
+				self.pays[pi].rehydrated = true;
+				self.out.bump("probe:payment_rehydrated_from_monitors");
+			}
+			if p.from != n || !p.accepted || !p.ev.sent.is_empty() || !p.ev.failed.is_empty() {
+				continue;
+			}
+			self.out.bump("oracle:C03-6 unlisted payment has nothing in flight");
+			if !listed.contains(&p.id) {
+				if p.forgotten.is_none() {
+					self.pays[pi].forgotten = Some(step);
+					self.out.bump("probe:payment_forgotten_after_restart");
+				}
+				let inflight = chans.iter().any(|d| {
+					d.pending_outbound_htlcs.iter().any(|h| h.payment_hash == p.hash)
+				});
+				if inflight {
+					self.violate(
+						"C03",
+						"C03-6 payment not listed after restart but HTLC in flight",
+						format!("node {} pay {}: absent from list_recent_payments but a channel still carries its HTLC", n, pi),
+					);
+				}
+			} else if p.forgotten.is_some() {
+				self.pays[pi].forgotten = None;
+			}
+		}
+	}
 
 	// -----------------------------------------------------------------------------------------
 	// end of run (after settle)
@@ -720,6 +802,17 @@ impl World {
 		let pays = self.pays.clone();
 		for p in pays.iter() {
 			if !p.accepted {
+				continue;
+			}
+			if p.forgotten.is_some() {
+				// legally lost with the stale manager; it must never complete
+				if !p.ev.sent.is_empty() {
+					self.violate(
+						"C03",
+						"C03-6 forgotten payment completed",
+						format!("pay {} from node {} was not listed after a restart, yet PaymentSent was reported later", p.idx, p.from),
+					);
+				}
 				continue;
 			}
 			self.out.bump("oracle:C03-3 terminal event once nothing is pending");
@@ -745,12 +838,25 @@ impl World {
 				continue;
 			}
 			if !terminal && !pending_htlc {
+				// a path failure handled after the snapshot a later restart loaded?
+				let phantom = p.paths.len() > 1
+					&& p.ev.path_failed_gen.iter().any(|g| {
+						self.nodes[sender].loaded_gens.iter().any(|l| *g + 1 > *l)
+					}) && !self.nodes[sender].loaded_gens.is_empty();
+				let inflight_close = p.paths.iter().any(|x| self.nodes[sender].closed_inflight.contains(&x.chans[0]));
+				let ctx = if inflight_close {
+					" [its first-hop channel was closed while an asynchronous monitor update of that channel was still in flight; HTLC failures waiting for that update are dropped with the channel]"
+				} else if phantom {
+					" [multi-part payment; a PaymentPathFailed of one part was handled (and the part marked resolved in its ChannelMonitor) after the ChannelManager snapshot the sender later restarted from, which still counts that part as in flight]"
+				} else {
+					""
+				};
 				self.violate(
 					"C03",
 					"C03-3 payment without terminal event after settle",
 					format!(
-						"pay {} from node {}: no HTLC pending, listed pending = {}, but neither PaymentSent nor PaymentFailed was reported",
-						p.idx, sender, listed_pending
+						"pay {} from node {}: no HTLC pending, listed pending = {}, but neither PaymentSent nor PaymentFailed was reported{}",
+						p.idx, sender, listed_pending, ctx
 					),
 				);
 			}
